@@ -78,6 +78,8 @@ def _case(draw, tier):
         "rng": draw(st.integers(0, 10**6)),
         "learner": draw(st.sampled_from(["svc", "perc", "perc", "lin"])),
         "dedup": draw(st.sampled_from([True, True, False])),
+        # ensemble rescoring (every PSM gets the average of all fold models) - same switch in both configurations
+        "ensemble": draw(st.sampled_from([False, False, False, True])),
         "rollup": draw(st.sampled_from([True, True, False])),
         "whole_feature": draw(st.sampled_from([False, True])),
         "key_gap": draw(st.sampled_from([False, False, True])),
@@ -157,7 +159,7 @@ def _run(case, cfg, tmp, df):
         else:
             model = recorder.make_model(recorder.Lin(log="c05", eps=0.0), train_fdr=0.26, max_iter=2, override=True)
         _, models, scores, descs = mokapot.brew(psms, model, test_fdr=0.26, folds=case["folds"],
-                                                max_workers=cfg["workers"], rng=case["rng"])
+                                                max_workers=cfg["workers"], rng=case["rng"], ensemble=bool(case.get("ensemble")))
         res["scores"] = [np.asarray(s, dtype=float).ravel() for s in scores]
         res["descs"] = list(descs)
         mokapot.assign_confidence(psms, max_workers=cfg["workers"], scores=[np.asarray(s, dtype=float).ravel() for s in scores],
@@ -268,6 +270,8 @@ def check(case):
         classes.append("ties")
     if not case["dedup"]:
         classes.append("dedup-off")
+    if case.get("ensemble"):
+        classes.append("ensemble")
     classes.append(case["learner"])
     if case.get("whole_feature"):
         classes.append("whole-valued-feature-written-compactly")
